@@ -171,6 +171,18 @@ def mk_recv_idle(rtype, tr, r, push_after=None):
     return c
 
 
+def recv_churn_cases(tier):
+    """a pending recv() with a positive RCVTIMEO while further peers keep connecting (closer together than the timeout):
+    the timeout is measured from the call, not from the last connection event"""
+    out = []
+    for rtype in ("ROUTER", "DEALER", "PULL", "SUB"):
+        for tr in (("tcp",) if tier == "quick" else ("tcp", "inproc")):
+            c = mk_recv_idle(rtype, tr, 300)
+            c["churn_ms"], c["churn_n"] = 120, 12
+            out.append(c)
+    return out
+
+
 def gen_sock(rng, tier):
     never, other, recv = [], [], []
     combos = [(st, tr, s) for st in PATS for tr in ("tcp", "inproc") for s in TIMEOS]
@@ -569,6 +581,7 @@ def main(argv):
     n_if, n_rc = (260, 120) if tier == "quick" else (4000, 1500)
     a_cases = gen_iface(rng, n_if) + gen_recv(rng, n_rc) + C.load_corpus(PROP, "cases")
     never, other, recv = gen_sock(rng, tier)
+    recv += recv_churn_cases(tier)
 
     # kernel allowance: what a loopback connection with the scenarios' socket buffers swallows unread
     ok, blog = C.build_harness()
